@@ -37,7 +37,8 @@ P["C05"] = dict(
     technique="static analysis: exact rational identities between the Krueger, rectifying and conformal series tables",
     decides=["T-SERIES-CROSS: TM.fwd = RECT.fwd o CONF.inv and TM.inv = CONF.fwd o RECT.inv exactly to n^6 "
              "(northing on the central meridian is the scaled meridian arc)",
-             "R-SIGN-SLICE: laea's polar aspect selection depends on the sign of lat_0 (all aspects reachable)"],
+             "R-SIGN-SLICE: laea's polar aspect selection depends on the sign of lat_0 (all aspects reachable)",
+             "R-DIMENSION: (units-of-measure inference) every addition, subtraction and comparison in the ellipsoid geometry and in the operators with documented tuple conventions joins quantities of one physical dimension, transcendental functions get dimensionless arguments, and written tuple elements have the documented dimension (length / angle / time)"],
     not_decided=["conformality, equal-area and true-scale identities (differential statements over R^2)"],
     level="Decides two necessary table identities of the transverse Mercator geometry; the differential geometry "
           "of the projections is not decidable statically and is not claimed.",
@@ -49,7 +50,9 @@ P["C06"] = dict(
               "series reversion identities, meridian-arc coefficients = binom(1/2,k)^2",
     decides=["T-ELLPS: every row parses, is unique, equals the published a and 1/f; gamut defaults name rows",
              "T-SERIES: auxiliary-latitude series pairs are exact reversions to n^6",
-             "T-MERIDIAN: MERIDIAN_ARC_COEFFICIENTS[k] = binom(1/2,k)^2"],
+             "T-MERIDIAN: MERIDIAN_ARC_COEFFICIENTS[k] = binom(1/2,k)^2",
+             "R-DIMENSION: (units-of-measure inference) every addition, subtraction and comparison in the ellipsoid geometry and in the operators with documented tuple conventions joins quantities of one physical dimension, transcendental functions get dimensionless arguments, and written tuple elements have the documented dimension (length / angle / time)",
+             "R-UNIT-DIVISOR: no division by 1 - x*x with x a product of sines and cosines (|x| = 1 attained, e.g. on the equator) without a test of the divisor"],
     not_decided=["cartesian/geographic accuracy", "geodesic consistency", "closed-form agreement of series",
                  "identities among derived shape parameters"],
     level="Decides the table/series clauses of ellipsoid coherence exactly; numerical clauses are not claimed.",
@@ -101,7 +104,8 @@ P["C07"] = dict(
              "R-ROT-ORTHOGONAL: in exact mode R*R^T = I and det R = +1 hold as polynomial identities in the sines and "
              "cosines of the three angles (normal forms modulo s^2+c^2=1), for both conventions",
              "R-ALIAS-WIRING: element i of T/DT/R/DR comes from the i'th scalar alias or the i'th list element; "
-             "S, DS from (scale|s), (scale_trend|ds)"],
+             "S, DS from (scale|s), (scale_trend|ds)",
+             "R-DIMENSION: (units-of-measure inference) every addition, subtraction and comparison in the ellipsoid geometry and in the operators with documented tuple conventions joins quantities of one physical dimension, transcendental functions get dimensionless arguments, and written tuple elements have the documented dimension (length / angle / time)"],
     not_decided=["molodensky accuracy", "second-order inverse accuracy in small-angle mode",
                  "conversion constants (arc-seconds, ppm) beyond their wiring"],
     level="Decides the epoch-independence and untouched-time clauses; the algebraic clauses are not decided.",
@@ -254,7 +258,8 @@ P["C13"] = dict(
              "10000000 under south, zone in 1..=60", "R-NOOP-ALIAS: noop aliases write nothing and return len()",
              "R-SIGN-SLICE: north/south aspect selection depends on the sign of the latitude parameter",
              "R-PARAM-EFFECT: (program slice) every parameter an operator declares reaches the values it writes, directly "
-             "or through a key its constructor derives from it - no declared parameter is silently ignored"],
+             "or through a key its constructor derives from it - no declared parameter is silently ignored",
+             "R-DIMENSION: (units-of-measure inference) every addition, subtraction and comparison in the ellipsoid geometry and in the operators with documented tuple conventions joins quantities of one physical dimension, transcendental functions get dimensionless arguments, and written tuple elements have the documented dimension (length / angle / time)"],
     not_decided=["k_0 linearity", "lat_ts == corresponding k_0", "1SP == 2SP lcc", "merc == webmerc on a sphere",
                  "scaling with the semi-major axis"],
     level="Decides the unit, false-origin, UTM-constant and alias conventions structurally on all paths; the "
@@ -301,7 +306,8 @@ P["C14"] = dict(
              "its constructor (a mis-keyed option would make the operator disagree with the ellipsoid method it wraps)",
              "R-GATHER-SCATTER / R-UNITCONVERT-WIRING: adapt, axisswap and unitconvert move and scale elements as "
              "their shared mappings require", "T-SERIES-CROSS: the Krueger series equals rectifying o conformal^-1 "
-             "(tables from different papers agree exactly to n^6)"],
+             "(tables from different papers agree exactly to n^6)",
+             "R-DIMENSION: (units-of-measure inference) every addition, subtraction and comparison in the ellipsoid geometry and in the operators with documented tuple conventions joins quantities of one physical dimension, transcendental functions get dimensionless arguments, and written tuple elements have the documented dimension (length / angle / time)"],
     not_decided=["every numerical agreement listed in the statement (tmerc vs btmerc, cart vs geocart inverse, "
                  "series vs closed forms and quadrature)"],
     level="Decides wiring agreement between independent routes; numerical agreement is not decided.",
